@@ -591,6 +591,49 @@ def token_window_script(rnd, sid):
     return sc
 
 
+def idle_gaps_script(rnd, sid, outstanding, T=450):
+    """the placement of keep-alives in TIME: a WithTimeout(T) client whose WRITE side has been idle for 0, T/2, just under T, 1.5 T
+    and 3 T when the keep-alive arrives, while the reader keeps the READ side alive with tag reports / reader events T/3 apart
+    (the read deadline never fires) — with and without a request outstanding. Idle time does not matter as long as the reader
+    keeps talking and reading: every keep-alive acknowledged, Connect still serving. Go only, real time (~3 s); judged like `timed`
+    (a failure must repeat twice, run alone)."""
+    b = cc.SB(sid, version=1)
+    b.connect_step["client_timeout_ms"] = T
+    b.connect()
+    tag = rnd.randrange(1, 1 << 20) * 64
+    if outstanding:
+        b.send(1, rnd.choice(REQ_TYPES), 5, tag + 1)
+    else:
+        b.send(1, rnd.choice(REQ_TYPES), 5, tag + 1)
+        b.reply_to(1, 1023, 3, tag + 2)
+        b.wait(1)
+    gaps = [0, T // 2, T * 9 // 10, T * 3 // 2, T * 3]
+    rnd.shuffle(gaps)
+    step = T // 3
+    kid = 100
+    for gap in gaps:
+        left = gap
+        while left > step:
+            b.op("sleep", ms=step)
+            left -= step
+            t = rnd.choice([61, 63])
+            b.peer(t, rnd.randrange(1 << 32), rnd.choice([0, 7]), tag + 50 + kid + left)
+        if left:
+            b.op("sleep", ms=left)
+        kid += 1
+        b.keepalive(kid)
+        b.expect()
+    if outstanding:
+        b.reply_to(1, 1023, 3, tag + 2)
+        b.wait(1)
+    b.op("drain")
+    b.op("wait_connect")
+    sc = b.script()
+    sc["family"] = "idle-gaps"
+    sc["watchdog"] = 40000
+    return sc
+
+
 def class_scripts(seed, thorough):
     rnd = random.Random(seed + 29)
     out = []
@@ -637,7 +680,7 @@ def run(tier, seed, replay=None):
     if replay:
         rp_data = json.load(open(replay))
         scripts = [rp_data["script"]] if "script" in rp_data else []
-        if scripts and scripts[0].get("family") in ("splitcancel", "timed", "token-window"):
+        if scripts and scripts[0].get("family") in ("splitcancel", "timed", "token-window", "idle-gaps"):
             scripts_pred, scripts = scripts, []
         elif scripts and scripts[0].get("family") == "walk":
             walk_scripts, scripts = scripts, []
@@ -707,7 +750,9 @@ def run(tier, seed, replay=None):
         rg = random.Random(seed + 13)
         pred_only = ([splitcancel_script(rg, "c07-splitcancel-%d" % i) for i in range(150 if thorough else 30)]
                      + [timed_script(rg, "c07-timed-%d" % i) for i in range(6 if thorough else 2)]
-                     + [token_window_script(rg, "c07-tokenwindow-%d" % i) for i in range(120 if thorough else 24)])
+                     + [token_window_script(rg, "c07-tokenwindow-%d" % i) for i in range(120 if thorough else 24)]
+                     + [idle_gaps_script(rg, "c07-idlegaps-%d-%s" % (i, "out" if i % 2 else "idle"), i % 2 == 1,
+                                         T=(450 if i < 2 else rg.choice([300, 450, 600]))) for i in range(6 if thorough else 2)])
     for s, g in cc.run_pred_only(exe, pred_only):
         evals += 1
         dist[s["family"]] = dist.get(s["family"], 0) + 1
@@ -727,7 +772,7 @@ def run(tier, seed, replay=None):
                             "replies and every Write could complete" % wc[-1].get("res")))
             return v, out
         view, bad = judge(g)
-        if bad and s["family"] == "timed":       # real time: a stalled machine could make it fail; it must fail again
+        if bad and s["family"] in ("timed", "idle-gaps"):       # real time: a stalled machine could make it fail; it must fail again
             for _ in range(2):
                 g2, _ = cc.run_go(exe, [s], shards=1)
                 if not g2 or g2[0] is None:
